@@ -1374,4 +1374,225 @@ theorem specAll_single_ne_nil (rs : Char) (t : List Char) (ht : t ≠ []) : spec
     simp only [List.nil_append] at hrun
     simp [hrun.2, ht]
 
+/-! ## programs with `nextfile`: what is seen depends on the characters only -/
+
+/-- what of a console the *characters* determine: the characters pending in the open stream, the characters of the files
+not yet opened, and the program-visible counters -/
+structure View where
+  pend : List Char
+  files : List (String × List Char)
+  nr : Nat
+  fnr : Nat
+  filename : String
+  eos : Bool
+
+def Console.view (con : Console) : View :=
+  ⟨pending con.st con.cur, fileChars con.files, con.nr, con.fnr, con.filename, con.eos⟩
+
+theorem pendingLen_view (con : Console) :
+    con.pendingLen = con.view.pend.length + (con.view.files.map fun f => f.2.length).sum := by
+  simp [Console.pendingLen, Console.view, fileChars, List.map_map, Function.comp_def]
+
+theorem goSpec_view {mode : Mode} :
+    ∀ (f1 f2 : List (String × Stream)) (t : List Char) (c1 c2 : Console) (res1 res2 : Option Record × Console),
+      fileChars f1 = fileChars f2 → c1.nr = c2.nr → c1.fnr = c2.fnr → c1.filename = c2.filename → c1.eos = c2.eos →
+      GoSpec mode res1 f1 t c1 → GoSpec mode res2 f2 t c2 →
+      res1.1 = res2.1 ∧ (∀ r, res1.1 = some r → res1.2.view = res2.2.view ∧ WF res1.2.st ∧ WF res2.2.st) := by
+  intro f1
+  induction f1 with
+  | nil =>
+    intro f2 t c1 c2 res1 res2 hf h1 h2 h3 h4 g1 g2
+    have hf2 : f2 = [] := by
+      cases f2 with
+      | nil => rfl
+      | cons a b => simp [fileChars] at hf
+    subst hf2
+    unfold GoSpec at g1 g2
+    cases hs : (specRecord mode t).1 with
+    | some r =>
+      rw [hs] at g1 g2
+      obtain ⟨st1, cs1, e1, p1, w1⟩ := g1
+      obtain ⟨st2, cs2, e2, p2, w2⟩ := g2
+      subst e1 e2
+      refine ⟨rfl, fun _ _ => ⟨?_, w1, w2⟩⟩
+      simp [Console.view, p1, p2, h1, h2, h3, h4]
+    | none =>
+      rw [hs] at g1 g2
+      obtain ⟨st1, e1⟩ := g1
+      obtain ⟨st2, e2⟩ := g2
+      subst e1 e2
+      exact ⟨rfl, fun r hr => by cases hr⟩
+  | cons a f1 ih =>
+    intro f2 t c1 c2 res1 res2 hf h1 h2 h3 h4 g1 g2
+    obtain ⟨n1, cs1⟩ := a
+    cases f2 with
+    | nil => simp [fileChars] at hf
+    | cons b f2 =>
+      obtain ⟨n2, cs2⟩ := b
+      simp only [fileChars, List.map_cons, List.cons.injEq, Prod.mk.injEq] at hf
+      obtain ⟨⟨hn, hd⟩, hr⟩ := hf
+      unfold GoSpec at g1 g2
+      cases hs : (specRecord mode t).1 with
+      | some r =>
+        rw [hs] at g1 g2
+        obtain ⟨st1, cs1', e1, p1, w1⟩ := g1
+        obtain ⟨st2, cs2', e2, p2, w2⟩ := g2
+        subst e1 e2
+        refine ⟨rfl, fun _ _ => ⟨?_, w1, w2⟩⟩
+        simp [Console.view, p1, p2, h1, h2, h3, h4, fileChars, hn, hd]
+        exact hr
+      | none =>
+        rw [hs] at g1 g2
+        simp only at g1 g2
+        rw [hd] at g1
+        exact ih f2 (delivered cs2) { c1 with fnr := 0, filename := n1 } { c2 with fnr := 0, filename := n2 } res1 res2 hr h1 rfl hn h4 g1 g2
+
+theorem readRecordConsole_some {mode : Mode} {c : Console} {r : Record} (h : (readConsole mode c).1 = some r) :
+    readRecordConsole mode c =
+      (some r, { (readConsole mode c).2 with nr := (readConsole mode c).2.nr + 1, fnr := (readConsole mode c).2.fnr + 1 }) := by
+  unfold readRecordConsole
+  rcases hc : readConsole mode c with ⟨o, c'⟩
+  rw [hc] at h
+  simp only at h
+  subst h
+  rfl
+
+theorem readRecordConsole_none {mode : Mode} {c : Console} (h : (readConsole mode c).1 = none) :
+    (readRecordConsole mode c).1 = none := by
+  unfold readRecordConsole
+  rcases hc : readConsole mode c with ⟨o, c'⟩
+  rw [hc] at h
+  simp only at h
+  subst h
+  rfl
+
+/-- one `read_record` on two consoles holding the same characters: same record, and again the same characters -/
+theorem readRecordConsole_view {mode : Mode} (hok : ModeOK mode) (c1 c2 : Console) (w1 : WF c1.st) (w2 : WF c2.st)
+    (hv : c1.view = c2.view) :
+    (readRecordConsole mode c1).1 = (readRecordConsole mode c2).1 ∧
+    (∀ r, (readRecordConsole mode c1).1 = some r →
+      (readRecordConsole mode c1).2.view = (readRecordConsole mode c2).2.view ∧
+      WF (readRecordConsole mode c1).2.st ∧ WF (readRecordConsole mode c2).2.st) := by
+  simp only [Console.view, View.mk.injEq] at hv
+  obtain ⟨hp, hf, h1, h2, h3, h4⟩ := hv
+  have key : (readConsole mode c1).1 = (readConsole mode c2).1 ∧
+      (∀ r, (readConsole mode c1).1 = some r →
+        (readConsole mode c1).2.view = (readConsole mode c2).2.view ∧
+        WF (readConsole mode c1).2.st ∧ WF (readConsole mode c2).2.st) := by
+    unfold readConsole
+    by_cases he : c1.eos = true
+    · have he2 : c2.eos = true := by rw [← h4]; exact he
+      rw [if_pos he, if_pos he2]
+      exact ⟨rfl, fun r hr => by cases hr⟩
+    · have he2 : ¬ c2.eos = true := by rw [← h4]; exact he
+      rw [if_neg he, if_neg he2]
+      have g1 := go_spec hok c1.files loc0 c1.st c1.cur c1 rfl w1
+      have g2 := go_spec hok c2.files loc0 c2.st c2.cur c2 rfl w2
+      rw [hp] at g1
+      exact goSpec_view c1.files c2.files _ c1 c2 _ _ hf h1 h2 h3 h4 g1 g2
+  obtain ⟨k1, k2⟩ := key
+  cases hr1 : (readConsole mode c1).1 with
+  | none =>
+    have hr2 : (readConsole mode c2).1 = none := by rw [← k1]; exact hr1
+    rw [readRecordConsole_none hr1, readRecordConsole_none hr2]
+    exact ⟨rfl, fun r hr => by cases hr⟩
+  | some r =>
+    have hr2 : (readConsole mode c2).1 = some r := by rw [← k1]; exact hr1
+    obtain ⟨v, wa, wb⟩ := k2 r hr1
+    rw [readRecordConsole_some hr1, readRecordConsole_some hr2]
+    refine ⟨rfl, fun _ _ => ⟨?_, wa, wb⟩⟩
+    simp only [Console.view, View.mk.injEq] at v ⊢
+    obtain ⟨a1, a2, a3, a4, a5, a6⟩ := v
+    exact ⟨a1, a2, by rw [a3], by rw [a4], a5, a6⟩
+
+theorem nextFile_view (c1 c2 : Console) (hv : c1.view = c2.view) :
+    match nextFile c1, nextFile c2 with
+    | none, none => True
+    | some a, some b => a.view = b.view ∧ WF a.st ∧ WF b.st
+    | _, _ => False := by
+  simp only [Console.view, View.mk.injEq] at hv
+  obtain ⟨hp, hf, h1, h2, h3, h4⟩ := hv
+  unfold nextFile
+  rw [h4]
+  by_cases he : c2.eos = true
+  · simp [he]
+  · simp only [he, if_false]
+    cases hf1 : c1.files with
+    | nil =>
+      rw [hf1] at hf
+      cases hf2 : c2.files with
+      | nil => simp
+      | cons b f2 => rw [hf2] at hf; simp [fileChars] at hf
+    | cons a f1 =>
+      rw [hf1] at hf
+      obtain ⟨n1, cs1⟩ := a
+      cases hf2 : c2.files with
+      | nil => rw [hf2] at hf; simp [fileChars] at hf
+      | cons b f2 =>
+        rw [hf2] at hf
+        obtain ⟨n2, cs2⟩ := b
+        simp only [fileChars, List.map_cons, List.cons.injEq, Prod.mk.injEq] at hf
+        obtain ⟨⟨hn, hd⟩, hr⟩ := hf
+        simp only
+        refine ⟨?_, (by intro h; cases h), (by intro h; cases h)⟩
+        simp [Console.view, pending_fresh, hd, hn, h1, fileChars]
+        exact hr
+
+/-- **A program that uses `nextfile` sees the same records on two consoles that hold the same characters**, however
+these characters are spread over the read buffer, the chunks still to come, and the chunkings of the files to come. -/
+theorem runScript_view {mode : Mode} (hok : ModeOK mode) (nf : Seen → Bool) :
+    ∀ (n : Nat) (c1 c2 : Console), c1.pendingLen = n → WF c1.st → WF c2.st → c1.view = c2.view →
+      runScript mode nf c1 = runScript mode nf c2 := by
+  intro n
+  induction n using Nat.strongRecOn with
+  | ind n ih =>
+    intro c1 c2 hn w1 w2 hv
+    obtain ⟨k1, k2⟩ := readRecordConsole_view hok c1 c2 w1 w2 hv
+    have hl : c1.pendingLen = c2.pendingLen := by rw [pendingLen_view, pendingLen_view, hv]
+    conv => lhs; rw [runScript]
+    conv => rhs; rw [runScript]
+    simp only
+    cases hr : (readRecordConsole mode c1).1 with
+    | none =>
+      have hr2 : (readRecordConsole mode c2).1 = none := by rw [← k1]; exact hr
+      simp [hr2]
+    | some r =>
+      have hr2 : (readRecordConsole mode c2).1 = some r := by rw [← k1]; exact hr
+      obtain ⟨v, wa, wb⟩ := k2 r hr
+      have hl2 : (readRecordConsole mode c1).2.pendingLen = (readRecordConsole mode c2).2.pendingLen := by
+        rw [pendingLen_view, pendingLen_view, v]
+      have hs : (⟨(readRecordConsole mode c1).2.nr, (readRecordConsole mode c1).2.fnr, (readRecordConsole mode c1).2.filename, r⟩ : Seen) =
+          ⟨(readRecordConsole mode c2).2.nr, (readRecordConsole mode c2).2.fnr, (readRecordConsole mode c2).2.filename, r⟩ := by
+        simp only [Console.view, View.mk.injEq] at v
+        obtain ⟨_, _, a3, a4, a5, _⟩ := v
+        rw [a3, a4, a5]
+      simp only [hr2, hs, hl2, hl]
+      by_cases hlt : (readRecordConsole mode c2).2.pendingLen < c2.pendingLen
+      · simp only [hlt, dif_pos]
+        by_cases hnf : nf ⟨(readRecordConsole mode c2).2.nr, (readRecordConsole mode c2).2.fnr, (readRecordConsole mode c2).2.filename, r⟩ = true
+        · simp only [hnf, if_true]
+          have nv := nextFile_view _ _ v
+          cases hx1 : nextFile (readRecordConsole mode c1).2 with
+          | none =>
+            cases hx2 : nextFile (readRecordConsole mode c2).2 with
+            | none => rfl
+            | some b => rw [hx1, hx2] at nv; exact nv.elim
+          | some a =>
+            cases hx2 : nextFile (readRecordConsole mode c2).2 with
+            | none => rw [hx1, hx2] at nv; exact nv.elim
+            | some b =>
+              rw [hx1, hx2] at nv
+              obtain ⟨va, waa, wbb⟩ := nv
+              have hla : a.pendingLen = b.pendingLen := by rw [pendingLen_view, pendingLen_view, va]
+              simp only [hla]
+              by_cases hle : b.pendingLen ≤ (readRecordConsole mode c2).2.pendingLen
+              · simp only [hle, dif_pos]
+                congr 1
+                exact ih a.pendingLen (by omega) a b rfl waa wbb va
+              · simp only [hle, dif_neg, not_false_eq_true]
+        · simp only [hnf, if_false, Bool.false_eq_true]
+          congr 1
+          exact ih _ (by omega) _ _ rfl wa wb v
+      · simp only [hlt, dif_neg, not_false_eq_true]
+
 end Hawk.ReadIo
